@@ -11,6 +11,7 @@ chosen number is executed.  Core Lean only.
 (`consecutive_action_nums`) only demands that every number `0 … N-1` is a key.  `mask[i] = …` with `i ≥ N` raises
 `IndexError` in Python: the model reports it (`none`) instead of hiding it behind `List.set`'s no-op.
 -/
+import PrimaiteModel.Model.Request
 namespace Primaite.Mask
 
 /-- the loop body for one entry; `none` = `IndexError` -/
@@ -33,3 +34,67 @@ def WellNumbered {α} (amap : List (Nat × α)) : Prop :=
   (amap.map (·.1)).Perm (List.range amap.length)
 
 end Primaite.Mask
+
+/-! ### a mask computed with ANY state threaded through the loop (a cache, a counter, something kept from an earlier step)
+
+`valid s a = (verdict, s')`: the verdict of entry `a` may look at a state `s` that earlier entries (or earlier masks: start the
+loop from the state the last mask left) have written.  NOT what the code does; modelled to state what such a computation must
+satisfy to be the mask (Props/C11Memo.lean, `C11_stateful_mask_eq_of_transparent`). -/
+namespace Primaite.Mask
+
+def putBitSt {α σ} (valid : σ → α → Bool × σ) (st : Option (List Bool) × σ) (e : Nat × α) : Option (List Bool) × σ :=
+  let r := valid st.2 e.2
+  (putBit (fun _ => r.1) st.1 e, r.2)
+
+def actionMaskSt {α σ} (valid : σ → α → Bool × σ) (s0 : σ) (amap : List (Nat × α)) : Option (List Bool) × σ :=
+  amap.foldl (putBitSt valid) (some (List.replicate amap.length true), s0)
+
+end Primaite.Mask
+
+/-! ### a mask with a VERDICT MEMO (what a per-mask cache of guard outcomes computes)
+
+`check_valid(request, context, verdicts)` with `verdicts` keyed by the edge of the request tree (`id(request_type)`), one dict
+handed to every `check_valid` call of one `action_mask` computation: the first request that passes an edge decides the verdict
+every later request through that edge gets.  NOT what the code does (Gen tie `C11_gen_check_valid_shape`); modelled to state
+exactly when such sharing would be sound (Props/C11Memo.lean). -/
+namespace Primaite.Request
+
+/-- the memo: edge (validator id) ↦ remembered verdict, newest first -/
+abbrev Memo := List (VId × Bool)
+
+def memoGet : Memo → VId → Option Bool
+  | [], _ => none
+  | (v', b) :: t, v => if v = v' then some b else memoGet t v
+
+/-- `check_valid` with a verdict memo: an edge whose verdict is remembered is not evaluated again -/
+def checkValidMemoK (env : Env) : Kids → List Key → Memo → Bool × Memo
+  | _, [], m => (false, m)
+  | kids, k :: rest, m =>
+    match lookup k kids with
+    | none => (false, m)
+    | some (v, sub) =>
+      match memoGet m v with
+      | some b =>
+        if b then
+          match sub with
+          | .leaf _ => (true, m)
+          | .node kids' => checkValidMemoK env kids' rest m
+        else (false, m)
+      | none =>
+        if env v rest then
+          match sub with
+          | .leaf _ => (true, (v, true) :: m)
+          | .node kids' => checkValidMemoK env kids' rest ((v, true) :: m)
+        else (false, (v, false) :: m)
+
+/-- one loop iteration of `action_mask` with the shared memo -/
+def putBitMemo {α} (env : Env) (kids : Kids) (form : α → List Key) (st : Option (List Bool) × Memo) (e : Nat × α) :
+    Option (List Bool) × Memo :=
+  let r := checkValidMemoK env kids (form e.2) st.2
+  (Primaite.Mask.putBit (fun _ => r.1) st.1 e, r.2)
+
+/-- `action_mask` with ONE memo for the whole mask (fresh for every mask) -/
+def actionMaskMemo {α} (env : Env) (kids : Kids) (form : α → List Key) (amap : List (Nat × α)) : Option (List Bool) :=
+  (amap.foldl (putBitMemo env kids form) (some (List.replicate amap.length true), [])).1
+
+end Primaite.Request
